@@ -138,6 +138,8 @@ type World struct {
 	obsH        map[uint64]bool // ghost: the header of block k was in a DA height this node fetched successfully
 	obsD        map[uint64]bool
 	obsAt       map[string]map[uint64]bool // "h:<k>" / "d:<k>" -> DA heights at which it was observed
+	gaveD       map[uint64]bool            // ghost, per process: the genuine data of block k was handed to the running node
+	gaveJ       map[uint64]bool            // ghost, per process: a junk data item naming height k was handed to it
 }
 
 // report files a finding unless the check that runs the stream is about another property (FNODE is run by C02, C05
@@ -219,6 +221,7 @@ func (w *World) startLoops() {
 	w.hs.setVis(w.hs.vis, &h)
 	w.ds.setVis(w.ds.vis, &h)
 	w.hs.fetched, w.ds.fetched = map[uint64]bool{}, map[uint64]bool{}
+	w.gaveD, w.gaveJ = map[uint64]bool{}, map[uint64]bool{}
 	lp.hsDone, lp.dsDone = make(chan struct{}), make(chan struct{})
 	go func() { defer close(lp.hsDone); m.HeaderStoreRetrieveLoop(ctx) }()
 	go func() { defer close(lp.dsDone); m.DataStoreRetrieveLoop(ctx) }()
@@ -928,6 +931,7 @@ func Run(c *hx.Ctx) {
 			if !w.dead {
 				w.runIncluder()
 			}
+			w.noteFetched()
 			c.Emit("p2pstore %s hs=%d ds=%d %s", sh, w.hs.top(), w.ds.top(), w.observe())
 			w.monitorP2P()
 			w.monitorStores()
@@ -1171,30 +1175,15 @@ func (w *World) monitorStores() {
 		}
 		return false
 	}
-	_, d, err := w.prod.Store.GetBlockData(ctx, h+1)
-	switch {
-	case never(w.hs.fetched, w.hs.top()) || never(w.ds.fetched, w.ds.top()):
+	_ = ctx
+	if never(w.hs.fetched, w.hs.top()) || never(w.ds.fetched, w.ds.top()) {
 		cause = "heights-never-handed-over"
-	case err == nil && len(d.Txs) > 0:
-		// the recorded findings: a junk item for the stuck height arrived after the genuine data; a repeated tx list
-		seenD := false
-		for _, t := range w.ds.tags {
-			if t == fmt.Sprintf("D%d", h+1) {
-				seenD = true
-			} else if t == fmt.Sprintf("JD%d", h+1) && seenD {
-				w.report("C02/stall/junk-p2p-data-replaced-cached-data", fmt.Sprintf("junk data for height %d arrived after the genuine data", h+1))
-				return
-			}
-		}
-		dc := d.DACommitment()
-		for k := w.ih; k <= w.prod.Height(); k++ {
-			if _, dk, err := w.prod.Store.GetBlockData(ctx, k); err == nil && k != h+1 && len(dk.Txs) > 0 && bytes.Equal(dk.DACommitment(), dc) {
-				w.report("C02/stall/tx-list-repeats-an-earlier-block", fmt.Sprintf("height %d", h+1))
-				return
-			}
-		}
+	} else if known := w.knownStall(h, w.da.Height); known != "" {
+		// a recorded finding - named only when the node's own caches show that cause
+		w.rep(known, fmt.Sprintf("height %d: the genuine data is marked seen and is not what the data cache holds there", h+1))
+		return
 	}
-	w.report("C02/converge/p2p-stores-only/"+cause,
+	w.rep("C02/converge/p2p-stores-only/"+cause,
 		fmt.Sprintf("the node's P2P stores hold (above the height %d it started with) header and data of every block up to %d, both store loops have polled (header store height %d, data store height %d) and everything is quiescent, but the node is at %d",
 			w.p2pStart, hstar, w.hs.top(), w.ds.top(), h))
 }
@@ -1237,6 +1226,9 @@ func (w *World) p2p(tok string) bool {
 		m.VerifHeaderInCh() <- block.NewHeaderEvent{Header: sh, DAHeight: cur}
 	} else {
 		m.VerifDataInCh() <- block.NewDataEvent{Data: d, DAHeight: cur}
+		if len(d.Txs) > 0 {
+			w.gaveD[k] = true
+		}
 	}
 	if !w.settle() {
 		w.dead = true
@@ -1266,6 +1258,7 @@ func (w *World) noteObserved(log []string) {
 			if pt.data {
 				key = fmt.Sprintf("d:%d", pt.k)
 				w.obsD[pt.k] = true
+				w.gaveD[pt.k] = true
 			} else {
 				w.obsH[pt.k] = true
 			}
@@ -1319,10 +1312,16 @@ func (w *World) monitorInclusion(scanned bool) {
 	if exp != inc {
 		w.report("C07/finalize/does-not-match-reported-height", fmt.Sprintf("finalized up to %d, reported %d", exp, inc))
 	}
-	shared := func(k uint64, d *types.Data) string {
+	// the data marks are keyed by the commitment, which two blocks with the same transaction list share: the suffix is
+	// given only when that explains the violation - ANOTHER block with the same commitment had its signed data in a DA
+	// height this node fetched (at = 0), resp. in exactly the recorded DA height (at != 0)
+	shared := func(k uint64, d *types.Data, exact bool, at uint64) string {
 		for j := w.ih; j <= w.prod.Height(); j++ {
 			if _, dj, err := w.prod.Store.GetBlockData(ctx, j); err == nil && j != k && len(dj.Txs) > 0 && bytes.Equal(dj.DACommitment(), d.DACommitment()) {
-				return "/commitment-shared-by-two-blocks"
+				obs := w.obsAt[fmt.Sprintf("d:%d", j)]
+				if (!exact && len(obs) > 0) || (exact && obs[at]) {
+					return "/commitment-shared-by-two-blocks"
+				}
 			}
 		}
 		return ""
@@ -1342,11 +1341,11 @@ func (w *World) monitorInclusion(scanned bool) {
 			w.report("C07/recorded-da-height/header", fmt.Sprintf("height %d recorded %d", k, w.meta(fmt.Sprintf("rhb/%d/h", k))))
 		}
 		if len(d.Txs) > 0 {
-			sfx := shared(k, d)
+			rd := w.meta(fmt.Sprintf("rhb/%d/d", k))
 			if !w.obsD[k] {
-				w.report("C07/sound/data-not-on-da"+sfx, fmt.Sprintf("height %d reported DA-included, its data was never in a DA height this node fetched", k))
-			} else if !w.obsAt[fmt.Sprintf("d:%d", k)][w.meta(fmt.Sprintf("rhb/%d/d", k))] {
-				w.report("C07/recorded-da-height/data"+sfx, fmt.Sprintf("height %d recorded %d", k, w.meta(fmt.Sprintf("rhb/%d/d", k))))
+				w.report("C07/sound/data-not-on-da"+shared(k, d, false, 0), fmt.Sprintf("height %d reported DA-included, its data was never in a DA height this node fetched", k))
+			} else if !w.obsAt[fmt.Sprintf("d:%d", k)][rd] {
+				w.report("C07/recorded-da-height/data"+shared(k, d, true, rd), fmt.Sprintf("height %d recorded %d", k, rd))
 			}
 		} else if w.meta(fmt.Sprintf("rhb/%d/d", k)) != w.meta(fmt.Sprintf("rhb/%d/h", k)) {
 			w.report("C07/recorded-da-height/empty-block-data-differs-from-header", fmt.Sprintf("height %d", k))
@@ -1466,7 +1465,7 @@ func (w *World) monitorRun(log []string) {
 	what := fmt.Sprintf("every part of the blocks up to %d is on the DA layer between the DA start height %d and the head %d, the scan reached the head without fetch faults, but the node is at %d (this process started its scan at DA height %d after %s)",
 		hstar, w.dastart, head, h, w.startCursor, w.startKind)
 	if strings.HasPrefix(cause, "C02/stall/") {
-		w.report(cause, what)
+		w.rep(cause, what) // after a crash every finding is attributed to the crash point
 		return
 	}
 	switch w.startKind {
@@ -1479,21 +1478,72 @@ func (w *World) monitorRun(log []string) {
 	}
 }
 
-func (w *World) classifyStall(h, hstar, head uint64) string {
+// knownStall names a recorded finding for a node that stays at h although it was handed everything for h+1 - only
+// when the node's own caches show that cause (as harness/streams/syncs classifyStall does): the commitment of the
+// genuine data of h+1 is in the data seen-set AND the data cache does not hold that data at h+1, i.e. the genuine data
+// was (and will always be) dropped as "already seen".  Why it is seen without being cached:
+//   - junk-p2p-data-replaced-cached-data: a junk item naming h+1 was handed to the running node and the slot at h+1
+//     holds something else than the genuine data (the junk) or nothing (dropped when the header arrived)
+//   - tx-list-repeats-an-earlier-block: another block with the same tx list is applied, or its data was handed to the
+//     running node
+// Anything else is "" (= a new violation, reported as .../other).
+func (w *World) knownStall(h, head uint64) string {
 	ctx := context.Background()
-	// the recorded finding: the stuck block's tx list repeats an earlier block's, or a later block's whose data is on DA
-	if _, d, err := w.prod.Store.GetBlockData(ctx, h+1); err == nil && len(d.Txs) > 0 {
-		dc := d.DACommitment()
-		for k := w.ih; k <= w.prod.Height(); k++ {
-			if k == h+1 {
-				continue
-			}
-			if _, dk, err := w.prod.Store.GetBlockData(ctx, k); err == nil && len(dk.Txs) > 0 && bytes.Equal(dk.DACommitment(), dc) {
-				if k <= h || len(w.visible(k, true, head)) > 0 {
-					return "C02/stall/tx-list-repeats-an-earlier-block"
-				}
+	_, d, err := w.prod.Store.GetBlockData(ctx, h+1)
+	if err != nil || len(d.Txs) == 0 || h+1 > w.prod.Height() {
+		return ""
+	}
+	dc := d.DACommitment()
+	seen := false
+	for _, x := range w.full.M.DataCache().VerifSeen() {
+		if strings.EqualFold(x, dc.String()) {
+			seen = true
+		}
+	}
+	item := w.full.M.DataCache().GetItem(h + 1)
+	if !seen || (item != nil && bytes.Equal(item.DACommitment(), dc)) {
+		return ""
+	}
+	if w.gaveJ[h+1] {
+		return "C02/stall/junk-p2p-data-replaced-cached-data"
+	}
+	for k := w.ih; k <= w.prod.Height(); k++ {
+		if k == h+1 {
+			continue
+		}
+		if _, dk, err := w.prod.Store.GetBlockData(ctx, k); err == nil && len(dk.Txs) > 0 && bytes.Equal(dk.DACommitment(), dc) && (k <= h || w.gaveD[k]) {
+			return "C02/stall/tx-list-repeats-an-earlier-block"
+		}
+	}
+	return ""
+}
+
+// noteFetched: which items the data store loop has fetched (= handed to the sync loop) since the node's last start
+func (w *World) noteFetched() {
+	w.ds.mu.Lock()
+	defer w.ds.mu.Unlock()
+	for pos := range w.ds.fetched {
+		i := int(pos - w.ds.base - 1)
+		if i < 0 || i >= len(w.ds.tags) {
+			continue
+		}
+		var k uint64
+		switch t := w.ds.tags[i]; {
+		case strings.HasPrefix(t, "JD"):
+			fmt.Sscan(t[2:], &k)
+			w.gaveJ[k] = true
+		case strings.HasPrefix(t, "D"):
+			fmt.Sscan(t[1:], &k)
+			if !w.isEmptyBlock(k) {
+				w.gaveD[k] = true
 			}
 		}
+	}
+}
+
+func (w *World) classifyStall(h, hstar, head uint64) string {
+	if known := w.knownStall(h, head); known != "" {
+		return known
 	}
 	// a needed part lies only below the DA height this process started its scan from
 	for k := h + 1; k <= hstar; k++ {
